@@ -24,6 +24,7 @@ EXPLANATION = "exhaustive sub-domains: permutations x drain masks up to n=6/7; r
 ASSUMPTIONS = ["serial numbers are the integers 0..n-1, each arriving once unless the script says 'overwrite'"]
 FLOORS = {}
 SHARDS = {"quick": 12, "thorough": 14}
+CASE_FUEL = 300000
 
 
 class _Stop(Exception):
